@@ -119,3 +119,9 @@ def same_table_twice(text, model):
             path.append(sgm); tbl = nxt
             targets.setdefault(tbl, set()).add(tuple(path))
     return any(len(v) > 1 for v in targets.values()) or root in targets
+
+
+# sub-terms naming a column the collection's model does not have (see lambda_leaves_p): a backend may refuse these as unknown fields
+LACKING_NAMES = ["k/a ", "t/a ", "q/n ", "k/s "]
+def names_lacking(text):
+    return any(sn in text for sn in LACKING_NAMES)
